@@ -412,6 +412,7 @@ func runCrash(t *rapid.T) {
 		points = append(points, point{n, after, tag})
 		if !same(after, before) {
 			points = append(points, point{n, before, tag + " [side file already updated]"})
+			vstat.Label("crash_point_between_side_file_update_and_next_db_write")
 		}
 	}
 	vstat.LabelN("crash_points", len(points))
@@ -467,7 +468,7 @@ func runCrash(t *rapid.T) {
 		}
 	}
 	if fl.hasUTXO || fl.valChange {
-		vstat.NonTrivial(fmt.Sprintf("%s|%d|%v|%v|%d", mode, H, fl.hasUTXO, fl.valChange, len(points)))
+		vstat.NonTrivial(mode + "|" + strings.Join(hist, "|") + "|" + writeLog(ops))
 	}
 	if vstat.WantSample() {
 		vstat.Sample(map[string]interface{}{"mode": mode, "blocks": nblocks, "last_block_txs": len(fl.txs), "confidential": fl.hasUTXO, "validator_change": fl.valChange, "crash_points": len(points), "write_log": strings.Split(writeLog(ops), "\n")})
